@@ -15,7 +15,8 @@ RULE = ('random finite MPOs from random term lists via MPOGraph (incl. long-rang
         'make_U_II error scaling) is compared with the dense operator from the harness contraction; infinite MPOs: '
         'expectation_value / expectation_value_TM / power vs dense window sums on product states. non-trivial = MPO with '
         'bond dimension >= 3; distinct = (construction, sites, operation, options)'
-        ' Also: virtual indices of every bond relabelled by random permutations (markers anywhere), MPOs built as sums of two MPOs, overlap / distance of infinite MPOs on explicit and default windows.')
+        ' Also: virtual indices of every bond relabelled by random permutations (markers anywhere), MPOs built as sums of two MPOs, overlap / distance of infinite MPOs on explicit and default windows.'
+        ' Round 5: variance of non-Hermitian MPOs; is_hermitian / is_equal with explicit max_range on infinite MPOs of unknown range; markers IdL/IdR of copy and original after sort_legcharges.')
 ASSUMPTIONS = ['C07/C10/C12 (dense states, MPO contraction, site operators)', 'propagator order judged by log-log slope with margin 0.5 above a 1e-12 floor']
 ANCHORS = {'tenpy/networks/mpo.py': ['*'], 'tenpy/algorithms/mps_common.py': ['VariationalApplyMPO', 'VariationalCompression']}
 REQUIRED_COUNTERS = {'op.expectation_value': 20, 'op.variance': 10, 'op.add': 15, 'op.dagger': 15, 'op.is_equal': 15, 'op.overlap': 10,
